@@ -1,12 +1,13 @@
-(* C03 model driver.  One case per stdin line:   <value> TAB <type>   (s-expressions, see the parse functions).
-   For each case prints one line with tab-separated fields:
-     m=<0|1>          the extracted specification  member T v
-     fo=<0|1>         first_order T && wf_ty T && wf_dv v  (the case is inside the theorems' domain)
-     <outcome>        the extracted model  check T v  in nkeval's format (OK <tree> | ERR <class>)
-     <prog>...        Nickel programs: (v | T), let x | T = v in x, {f | T = v}.f, ((v | T) | T)
-   The printers below are the only hand-written OCaml that matters: they turn the SAME (v, T) the
-   model was run on into the text the real interpreter parses. *)
-open C03_model
+(* C02 model driver.  Modes (first command line argument):
+     src   one type s-expression per line  ->  its Nickel source
+     skel  one type s-expression per line (as dumped by harness bin c02, with the excluded sets the
+           parser computed)  ->  F <skeleton of contract_of T> TAB S <skeleton of contract_static_of T>
+           TAB N <number of negative checks of T> TAB NS <same for static_type T> TAB WK <0|1>
+     beh   one behavioural case per line (tab separated, see below)  ->
+           <prediction default> TAB <prediction static-full> TAB <Nickel program>
+   The skeleton and the predictions are computed by the functions extracted from Coq
+   (Contract/Gen.v, Apply.v, Checks.v); the printers are hand-written. *)
+open C02_model
 
 (* ---------------------------------------------------------------- numbers *)
 let rec pos_of_int n = if n <= 1 then XH else if n land 1 = 0 then XO (pos_of_int (n lsr 1)) else XI (pos_of_int (n lsr 1))
@@ -152,7 +153,7 @@ let rec src_ty (t : ty) : string =
        | EVar x -> "[| " ^ rows ^ " ; " ^ x ^ " |]")
   | TForall (x, _, t) -> "forall " ^ x ^ ". " ^ src_ty t
   | TVar x -> x
-  | TOpaque n -> "(std.contract.from_predicate (fun _ => true))"
+  | TOpaque n -> "Ctr0"
 and atom_ty t =
   match t with
   | TDyn | TNum | TStr | TBool | TRec _ | TEnum _ | TDict _ | TVar _ | TOpaque _ -> src_ty t
@@ -191,7 +192,68 @@ let rec tree_dv (v : dv) : string =
       let fs = List.sort (fun (a, _) (b, _) -> compare a b) (List.map (fun (k, x) -> (k, tree_dv x)) fs) in
       "{" ^ String.concat "," (List.map (fun (k, x) -> json_str k ^ ":" ^ x) fs) ^ "}"
 
+
+(* ---------------------------------------------------------------- skeletons *)
+let sort_hex (l : string list) : string =
+  "[" ^ String.concat " " (List.sort compare (List.map (fun s ->
+     "x" ^ String.concat "" (List.map (fun c -> Printf.sprintf "%02x" (Char.code c)) (List.init (String.length s) (String.get s))))
+     l)) ^ "]"
+
+let hexs (s : string) : string =
+  "x" ^ String.concat "" (List.map (fun c -> Printf.sprintf "%02x" (Char.code c)) (List.init (String.length s) (String.get s)))
+
+let rec int_of_nat = function O -> 0 | S n -> 1 + int_of_nat n
+
 let show_pol = function Pos -> "+" | Neg -> "-"
+
+let skel_var = function
+  | VForallVar k -> Printf.sprintf "($forall_var %d)" (int_of_nat k)
+  | VForallEnumTail -> "$forall_enum_tail"
+  | VForallRecordTail (k, ex) -> Printf.sprintf "($forall_record_tail %d %s)" (int_of_nat k) (sort_hex ex)
+  | VExcludedOnly ex -> Printf.sprintf "($forall_record_tail_excluded_only %s)" (sort_hex ex)
+
+let rec skel = function
+  | CDyn -> "$dyn" | CNum -> "$num" | CBool -> "$bool" | CStr -> "$string"
+  | CArray c -> "($array " ^ skel c ^ ")"
+  | CArrayDyn -> "$array_dyn"
+  | CFunc (d, c) -> "($func " ^ skel d ^ " " ^ skel c ^ ")"
+  | CFuncDom d -> "($func_dom " ^ skel d ^ ")"
+  | CFuncCodom c -> "($func_codom " ^ skel c ^ ")"
+  | CFuncDyn -> "$func_dyn"
+  | CVarRef b -> skel_var b
+  | CForall (k, p, c) -> Printf.sprintf "($forall %d %s %s)" (int_of_nat k) (show_pol p) (skel c)
+  | CEnum (bs, def) ->
+      let subs = List.concat (List.map (fun (_, oc) -> match oc with Some c -> [skel c] | None -> []) bs) in
+      let d = match def with None -> "$enum_fail" | Some b -> skel_var b in
+      "($enum" ^ String.concat "" (List.map (fun s -> " " ^ s) (subs @ [d])) ^ ")"
+  | CRecord (fs, tail, ht) ->
+      let t = match tail with CTEmpty -> "$empty_tail" | CTDyn -> "$dyn_tail" | CTVar b -> skel_var b in
+      "($record_type {" ^ String.concat " " (List.map (fun (k, c) -> hexs k ^ "=" ^ skel c) fs) ^ "} " ^ t ^ " "
+      ^ (if ht then "true" else "false") ^ ")"
+  | CDictDyn -> "$dict_dyn"
+  | CDictContract c -> "($dict_contract " ^ skel c ^ ")"
+  | CDictType c -> "($dict_type " ^ skel c ^ ")"
+  | COpaque _ -> "(opaque)"
+
+let skel_opt = function Some c -> skel c | None -> "UNBOUND"
+
+(* well-kinded and closed, as the parser guarantees (mirrors GenProofs.wk; only reported) *)
+let rec wk t kenv =
+  match t with
+  | TDyn | TNum | TStr | TBool | TOpaque _ -> true
+  | TArr t -> wk t kenv
+  | TArrow (a, b) -> wk a kenv && wk b kenv
+  | TRec (rows, tail) ->
+      List.for_all (fun (_, t) -> wk t kenv) rows
+      && (match tail with RVar x -> (match List.assoc_opt x kenv with Some (KRecRows _) -> true | _ -> false) | _ -> true)
+  | TDict (_, t) -> wk t kenv
+  | TEnum (rows, tail) ->
+      List.for_all (fun (_, ot) -> match ot with Some t -> wk t kenv | None -> true) rows
+      && (match tail with EVar x -> (match List.assoc_opt x kenv with Some KEnumRows -> true | _ -> false) | EClosed -> true)
+  | TForall (x, k, t) -> wk t ((x, k) :: kenv)
+  | TVar x -> (match List.assoc_opt x kenv with Some KType -> true | _ -> false)
+
+(* ---------------------------------------------------------------- outcomes *)
 let show_outcome = function
   | Ok v -> "OK " ^ tree_dv v
   | Err (Blame p) -> "ERR Blame" ^ show_pol p
@@ -199,25 +261,69 @@ let show_outcome = function
   | Err FieldMissing -> "ERR FieldMissing"
   | Err OutOfFragment -> "ERR OutOfFragment"
 
+let obind o f = match o with Ok a -> f a | Err e -> Err e
+
+let beh (fields : string list) : string =
+  let pv s = parse_dv (parse_sx s) and pt s = parse_ty (parse_sx s) in
+  match fields with
+  | ["data"; st; sv] ->
+      let t = pt st and v = pv sv in
+      let full = obind (check t v) (fun v' -> check t v') in
+      let dflt = obind (check t v) (fun v' ->
+        match contract_static_of t with Some c -> apply_data c Pos v' | None -> Err UnboundTypeVar) in
+      let prog = Printf.sprintf "let x : %s = ((%s) | %s) in x" (src_ty t) (src_dv v) (src_ty t) in
+      String.concat "\t" [show_outcome dflt; show_outcome full; prog]
+  | ["fun1"; ann; sa; sb; sarg; sres] ->
+      let a = pt sa and b = pt sb and arg = pv sarg and res = pv sres in
+      let t = TArrow (a, b) in
+      if ann = "ctr" then begin
+        let g = fun _ -> Ok res in
+        let full = obind (wrap_full t g) (fun w -> w arg) in
+        let prog = Printf.sprintf "let f | %s = fun x => std.deep_seq x (%s) in f (%s)" (src_ty t) (src_dv res) (src_dv arg) in
+        String.concat "\t" [show_outcome full; show_outcome full; prog]
+      end else begin
+        let g = fun _ -> check b res in
+        let full = obind (wrap_full t g) (fun w -> w arg) in
+        let dflt = obind (wrap_static t g) (fun w -> w arg) in
+        let prog = Printf.sprintf "let f : %s = fun x => std.deep_seq x ((%s) | %s) in f (%s)"
+                     (src_ty t) (src_dv res) (src_ty b) (src_dv arg) in
+        String.concat "\t" [show_outcome dflt; show_outcome full; prog]
+      end
+  | ["fun2"; sa; sb; sc; sa0; sr; sc0; cbkind] ->
+      let a = pt sa and b = pt sb and c = pt sc and a0 = pv sa0 and r = pv sr and c0 = pv sc0 in
+      let t = TArrow (TArrow (a, b), c) in
+      let h = fun cb -> obind (check a a0) (fun x -> obind (cb x) (fun _ -> check c c0)) in
+      let arg = if cbkind = "data" then AData r else ACallback (fun _ -> Ok r) in
+      let full = obind (wrap2_full t h) (fun w -> w arg) in
+      let dflt = obind (wrap2_static t h) (fun w -> w arg) in
+      let cbsrc = if cbkind = "data" then Printf.sprintf "(%s)" (src_dv r)
+                  else Printf.sprintf "(fun x => std.deep_seq x (%s))" (src_dv r) in
+      let prog = Printf.sprintf "let f : %s = fun cb => std.deep_seq (cb ((%s) | %s)) ((%s) | %s) in f %s"
+                   (src_ty t) (src_dv a0) (src_ty a) (src_dv c0) (src_ty c) cbsrc in
+      String.concat "\t" [show_outcome dflt; show_outcome full; prog]
+  | _ -> "BADLINE"
+
 let () =
+  let mode = if Array.length Sys.argv > 1 then Sys.argv.(1) else "skel" in
   try
     while true do
       let line = input_line stdin in
-      match String.split_on_char '\t' line with
-      | [sv; st] ->
-          let v = parse_dv (parse_sx sv) and t = parse_ty (parse_sx st) in
-          let m = member t v in
-          let dom = first_order t && wf_ty t && wf_dv v in
-          let out = check t v in
-          let sv = src_dv v and st = src_ty t in
-          let progs = [
-            Printf.sprintf "(%s) | %s" sv st;
-            Printf.sprintf "let x | %s = %s in x" st sv;
-            Printf.sprintf "{ f | %s = %s }.f" st sv;
-            Printf.sprintf "((%s) | %s) | %s" sv st st ] in
-          print_string (String.concat "\t" (
-            [ (if m then "m=1" else "m=0"); (if dom then "fo=1" else "fo=0"); show_outcome out ] @ progs));
-          print_newline ()
-      | _ -> print_string "BADLINE"; print_newline ()
+      let out =
+        try
+          match mode with
+          | "src" -> src_ty (parse_ty (parse_sx line))
+          | "skel" ->
+              let t = parse_ty (parse_sx line) in
+              let n l = List.length l in
+              String.concat "\t" [
+                "F " ^ skel_opt (contract_of t);
+                "S " ^ skel_opt (contract_static_of t);
+                Printf.sprintf "N %d" (n (negs (checks t Pos [])));
+                Printf.sprintf "NS %d" (n (negs (checks (static_type t) Pos [])));
+                (if wk t [] then "WK 1" else "WK 0") ]
+          | _ -> beh (String.split_on_char '\t' line)
+        with Failure m -> "MODEL-ERR " ^ m
+      in
+      print_string out; print_newline ()
     done
   with End_of_file -> ()
